@@ -484,4 +484,11 @@ def fenced : List Str := [L "```\n", L "  \n", L "```\n"]
 example : textsOf (blockPhase dflt 30 fenced) = [[L "  \n"]] := by decide +kernel
 example : textsOf (blockPhase dflt 40 (indentDoc ['-'] 1 fenced)) = [[L "\n"]] := by decide +kernel
 
+
+/-- the token-type lists the `_default` / `_markdown` instances are stated for are the lists the HTML and
+    the Markdown renderer install in the working tree (re-checked against the tables regenerated from /repo) -/
+theorem C04_config_current :
+    Config.html.map (·.block.types) = some defaultTypes ∧
+    Config.markdown.map (·.block.types) = some markdownTypes := C14.C14_config_current
+
 end Mistletoe.Props.C04
